@@ -44,6 +44,39 @@ def valid_structures(tier: str, seed: int) -> List[bytes]:
                     continue
                 seen.add(key)
                 out.append(enc)
+    if tier != "thorough":
+        # the other eleven prefixes, for the encodings where the prefix MATTERS: those whose rendered text changes when the prefix
+        # is put in front (an internal-memory operand takes its addressing calculation from it); a few mode bytes each
+        from binja_test_mocks.tokens import asm_str
+        for pre in [p for p in PRE_BYTES if p not in pres]:
+            for op in range(256):
+                if op in PRE_BYTES:
+                    continue
+                took = 0
+                for b2 in MODE_BYTES[:: 5] + [rnd.randrange(256)]:
+                    body = bytes([op, b2] + [rnd.randrange(256) for _ in range(4)])
+                    s2 = bytes([pre]) + body
+                    try:
+                        ins = decode(s2 + bytes(4), 0x1000, OPCODES)
+                        bare = decode(body + bytes(4), 0x1000, OPCODES)
+                        if ins is None or bare is None or type(ins).__name__ == "PRE":
+                            continue
+                        L = ins.length()
+                        if asm_str(ins.render()) == asm_str(bare.render()):
+                            break             # the prefix does not show in the text of this opcode
+                    except Exception:
+                        continue
+                    enc = s2[:L]
+                    if not documented(pre, op, enc):
+                        continue
+                    key = (pre, op, enc[2] if L > 2 else None)
+                    if key in seen:
+                        continue
+                    seen.add(key)
+                    out.append(enc)
+                    took += 1
+                    if took >= 2:
+                        break
     return out
 
 
